@@ -4,6 +4,7 @@
 set -e
 cd "$(dirname "$0")"
 /venv/bin/python gen/translate.py || echo "translate failed (reported again by every check)"
+mkdir -p ocaml/gen
 cd coq
 coq_makefile -f _CoqProject -o Makefile
 timeout 3000 make -j16 -k || echo "some proofs do not build (reported by the checks that need them)"
